@@ -63,6 +63,14 @@ func main() {
 		for _, k := range e.sortedFuncKeys() {
 			fmt.Println(k)
 		}
+		fmt.Println("init-only fields:", sortedKeys(e.initOnly))
+		fmt.Println("immutable globals:", sortedKeys(e.immGlobals))
+		for g, t := range e.tables {
+			fmt.Println("table", g, len(t), e.tableLen[g])
+		}
+		for g, t := range e.mapTables {
+			fmt.Println("map table", g, len(t))
+		}
 		return
 	}
 	to := *timeout
@@ -242,6 +250,13 @@ func runProperty(e *Engine, prop, tier, propsFile, evidence, replays, knownFile 
 		}
 		if rets > 0 && reachable == 0 {
 			vacuity = append(vacuity, &Obligation{ID: r.Key + "#vacuity#returns", Func: r.Key, Desc: "no return of " + r.Key + " is reachable under its contract"})
+		}
+		expected := 0
+		if ct := e.cf.Funcs[r.Key]; ct != nil {
+			expected = ct.UnreachableReturns
+		}
+		if rets-reachable != expected {
+			vacuity = append(vacuity, &Obligation{ID: r.Key + "#vacuity#unreachable-returns", Func: r.Key, Desc: fmt.Sprintf("%d returns of %s are unreachable under its contract, expected %d (contradictory premises or dead code)", rets-reachable, r.Key, expected)})
 		}
 	}
 	exit := 0
